@@ -2,7 +2,8 @@
 import os, re, subprocess
 import shv
 
-H = '/verif/cbmc/extract_harness.c'
+import os as _os
+H = _os.path.dirname(_os.path.dirname(_os.path.abspath(__file__))) + '/cbmc/extract_harness.c'
 
 
 def run_extract(sc, unit, pid, tier):
